@@ -66,6 +66,24 @@ def split_literals(ctx, P, rule, b, label):
                     ss = T.strip(a)
                     if ss[0] == "const" and isinstance(ss[1], str):
                         lits.add((ss[1], c[2]))
+    # whether a header enters the ordered header list depends on its NAME only: no push into a list of headers is decided by the
+    # header's value (an empty or absent value is still a header that was sent, in the position it was sent)
+    by_value = None
+    for blk, t in b.calls():
+        if not callee_of(t).endswith("Vec::<T, A>::push"):
+            continue
+        a = Q.call_args(b, S, blk, t)
+        if not any(x[0] == "call" and x[1].endswith("::clone") or x[0] in ("field", "downcast") for x in T.walk(a[1])):
+            continue
+        for c in Q.canon_conds(P, T.dom_conds(b, S, blk)):
+            subj = c[1] if c[0] in ("variant", "variant_in", "bool") else None
+            if subj is None and c[0] == "cmp":
+                subj = ("tuple2", c[2], c[3])
+            if subj is not None and any(x[0] == "field" and x[2] == "value" for x in T.walk(subj)) and any(x[0] == "call" and x[1].endswith("::next") for x in T.walk(subj)):
+                by_value = (blk, T.pp(subj)[:50])
+    ctx.check(by_value is None, rule, label + ":listed-whatever-the-value", "every header that is not split out is listed, with or without a value",
+              "a header is added to the header list only when %s: a header sent with an empty value disappears from the header list and the header order, and is "
+              "reported as absent" % (by_value[1] if by_value else ""), ctx.loc(b, by_value[0]) if by_value else ctx.loc(b))
     names = {l for l, _ in lits}
     ctx.check({"cookie", "referer"} <= names and names <= {"cookie", "referer"}, rule, label + ":cookie-referer-split",
               "cookie / referer split out under their own names", "the header names that are split out of the header list are %s (expected exactly `cookie` and `referer`): the field is "
